@@ -4,6 +4,7 @@ package auth
 
 import (
 	"errors"
+	"time"
 
 	v "github.com/andydunstall/piko/zzverif"
 )
@@ -34,9 +35,10 @@ func Harness_C10_permit() {
 // vVerifier is a key-specific verifier: it accepts exactly the tokens signed
 // with "its" key (modelled as a token string prefix owned by that key).
 type vVerifier struct {
-	name  string
-	calls []string
-	err   error
+	name   string
+	calls  []string
+	err    error
+	expiry time.Time
 }
 
 func (f *vVerifier) Verify(token string) (*Token, error) {
@@ -44,7 +46,7 @@ func (f *vVerifier) Verify(token string) (*Token, error) {
 	if f.err != nil {
 		return nil, f.err
 	}
-	return &Token{Endpoints: []string{f.name}}, nil
+	return &Token{Endpoints: []string{f.name}, Expiry: f.expiry}, nil
 }
 
 // Harness_C10_tenant: the tenant named by the request selects the verifier;
@@ -73,6 +75,9 @@ func Harness_C10_tenant() {
 				v.Assume(id != other)
 			}
 			f := &vVerifier{name: "t"}
+			if v.Choose("tenant-token-expires", 2) == 1 {
+				f.expiry = v.Time("tenant-token-expiry")
+			}
 			if v.Choose("tenant-fails", 2) == 1 {
 				f.err = ErrExpiredToken
 			}
@@ -121,6 +126,9 @@ func Harness_C10_tenant() {
 		v.Assert("C10/tenant/only-that-tenant", len(f.calls) == 1 && total == 1 && f.calls[0] == tok)
 		if f.err == nil {
 			v.Assert("C10/tenant/stamped", err == nil && got != nil && got.TenantID == hdr)
+			// the rest of the verified token is kept: what it permits and when it
+			// expires (the server closes the connection at that expiry, C16)
+			v.Assert("C10/tenant/token-kept", len(got.Endpoints) == 1 && got.Endpoints[0] == "t" && got.Expiry.Equal(f.expiry))
 		} else {
 			v.Assert("C10/tenant/error-passed", got == nil && err == f.err)
 		}
